@@ -12,7 +12,7 @@ CHECKS = {
          "DESIGN.md section 4 C01"),
 
  "C06": ("runtime monitoring: process-boundary trace (exit status + stdout bytes) of the same run under --format text/json/sarif; offline checker with independent extractors, structural SARIF 2.1.0 validator, exit-code law, usage-error classes",
-         "Held on the executions observed: all 20 linter commands x 3 formats over trigger projects with zero/one/many violations, hostile names and messages, and about 110 usage-error classes (missing paths / configs, unparsable files, bad options, an invalid regex in 11 positions of a file-placement configuration x 3 carriers, out-of-domain and non-numeric thresholds per linter); evidence lists commands, record counts and classes seen. Round-6 additions: keys written without a value for every documented key (refused or treated as absent, never swallowed rule failures), configuration paths that are directories / lists / missing beside other options, console encodings latin-1 / ascii / cp1252 on the real console script.",
+         "Held on the executions observed: all 20 linter commands x 3 formats over trigger projects with zero/one/many violations, hostile names and messages, and about 110 usage-error classes (missing paths / configs, unparsable files, bad options, an invalid regex in 11 positions of a file-placement configuration x 3 carriers, out-of-domain and non-numeric thresholds per linter); evidence lists commands, record counts and classes seen. Round-6 additions: keys written without a value for every documented key (refused or treated as absent, never swallowed rule failures), configuration paths that are directories / lists / missing beside other options, console encodings latin-1 / ascii / cp1252 on the real console script. Round-7 additions: under those console encodings the json and sarif documents themselves are decoded, parsed and compared with the UTF-8 run; malformed JSON that is well-formed YAML behind --config; the same settings as YAML, tab-indented JSON and compact JSON behind --config for eight commands.",
          "Trusted: the extractors in vlib/oracles/formats.py; text form path[:line][:column]; text not judged when a path or message contains a newline; group-level --config (application config, documented fallback to defaults) is not treated as a usage error.",
          "DESIGN.md section 4 C06"),
 
@@ -32,7 +32,7 @@ CHECKS = {
          "DESIGN.md section 4 C09"),
 
  "C15": ("runtime monitoring: boundary trace of every command over trigger, polyglot (swapped-language / unsupported-type) and twin (extension case, tsx/jsx, shebang) projects and under random foreign configuration sections; rule-family, silence and relational oracles",
-         "Held on the executions observed: 20 commands x rule-id family, random valid settings of the other linters' sections (hyphen/underscore; repeated under --parallel on a padded project, including the other cross-file rule switched off), language-specific linters on other-language and unrecognised files, extension-case/tsx/jsx/shebang twins; evidence counts each relation. Round-6 additions: the per-rule switch of a sibling rule inside a shared section (performance) as foreign configuration.",
+         "Held on the executions observed: 20 commands x rule-id family, random valid settings of the other linters' sections (hyphen/underscore; repeated under --parallel on a padded project, including the other cross-file rule switched off), language-specific linters on other-language and unrecognised files, extension-case/tsx/jsx/shebang twins; evidence counts each relation. Round-6 additions: the per-rule switch of a sibling rule inside a shared section (performance) as foreign configuration. Round-7 additions: extension-case twins under per-language sections (nesting / srp / dry) that differ from the global thresholds, every file twice.",
          "Trusted: the family table from the docs; which linters are language-specific (per-linter docs); file-placement and file-header are exempt from the unrecognised-type clause (they document non-source types).",
          "DESIGN.md section 4 C15"),
 
@@ -72,7 +72,7 @@ CHECKS = {
          "DESIGN.md section 4 C03"),
 
  "C04": ("runtime monitoring: base run vs variant run (one suppression directive inserted) of every linter command and of an unrelated witness command, for every cell of the matrix linter x language x directive form x rule-name spelling x placement; a scope model written from the property text predicts the variant",
-         "Held on the executions observed: 19 commands (lazy-ignores excluded as a subject), py/ts/rs files, same-line / next-line / block / file-level (lines 1,5,10 in scope, 11,40 out of scope) / .thailintignore / config ignore / per-linter ignore (exact path in the matrix; every pattern form of docs/configuration.md - exact, **/name, dir/**, **/dir/**, name_*.ext, substring, nested tests/** - for the 16 linters that document the option), spellings full id / prefix / prefix.* / alias / upper case / list / bare, negative controls (other rule, placed away); thorough tier enumerates the whole matrix; evidence counts cells ok/fail. Round-6 additions: block markers that repeat the rule name or use brackets, an ignore-next-line comment at the end of the finding's own line (each with other-rule controls; the full and the bare spelling are drawn for every next-line / block cell on the quick tier too).",
+         "Held on the executions observed: 19 commands (lazy-ignores excluded as a subject), py/ts/rs files, same-line / next-line / block / file-level (lines 1,5,10 in scope, 11,40 out of scope) / .thailintignore / config ignore / per-linter ignore (exact path in the matrix; every pattern form of docs/configuration.md - exact, **/name, dir/**, **/dir/**, name_*.ext, substring, nested tests/** - for the 16 linters that document the option), spellings full id / prefix / prefix.* / alias / upper case / list / bare, negative controls (other rule, placed away); thorough tier enumerates the whole matrix; evidence counts cells ok/fail. Round-6 additions: block markers that repeat the rule name or use brackets, an ignore-next-line comment at the end of the finding's own line (each with other-rule controls; the full and the bare spelling are drawn for every next-line / block cell on the quick tier too). Round-7 addition: bracket lists typed with blanks after the commas, the rule in last place.",
          "Trusted: the scope model and the rule-name matcher (vlib/props/c04.py); line numbers inside messages are masked; per-linter ignore is judged only for linters whose documentation lists the option; file-header/file-placement only with forms that do not alter their subject.",
          "DESIGN.md section 4 C04"),
  "C05": ("runtime monitoring: boundary trace of linter commands on a staircase probe project (constructs straddling every threshold value) under the same setting written through .thailint.yaml / .thailint.json / pyproject.toml / --config (command and group level) with hyphen or underscore section names; relational oracles (carrier equivalence, enabled:false silence, effect + monotonicity along sweeps, precedence decoding, top-level ignore, exit 2 for invalid values and unparsable files)",
@@ -96,7 +96,7 @@ CHECKS = {
          "DESIGN.md section 4 C13"),
 
  "C20": ("runtime monitoring: command histories with file bytes recorded before/after every command, exit codes and stdout; offline checkers against (a) a key-path state model of the user's .thailint.yaml for init-config merges (plus threshold decoding on the staircase probe and byte-idempotence), (b) preset files accepted by every linter command, (c) a dict model with the documented value conversion for config set/get/reset incl. independent YAML/JSON reload",
-         "Held on the executions observed: generated existing configs (section subsets, hyphen/underscore, block/flow style, comments, banner look-alikes, CRLF, no final newline, document markers) x three init-config runs with presets; four preset files x 20 commands; set/get/reset histories with valid, invalid and YAML-special values over cfg.yaml and cfg.json; evidence counts merge runs, in-effect checks, accepted/rejected sets and get checks. Round-6 additions: interactive init-config steps (answer on stdin, real console script). Final-sweep additions: an existing .thailint.json named with --output (judged by the JSON parser the tool uses for it), preset files written under both auto-discovered names, custom-key text holding NEL / LS / PS.",
+         "Held on the executions observed: generated existing configs (section subsets, hyphen/underscore, block/flow style, comments, banner look-alikes, CRLF, no final newline, document markers) x three init-config runs with presets; four preset files x 20 commands; set/get/reset histories with valid, invalid and YAML-special values over cfg.yaml and cfg.json; evidence counts merge runs, in-effect checks, accepted/rejected sets and get checks. Round-6 additions: interactive init-config steps (answer on stdin, real console script). Final-sweep additions: an existing .thailint.json named with --output (judged by the JSON parser the tool uses for it), preset files written under both auto-discovered names, custom-key text holding NEL / LS / PS. Round-7 additions: JSON-native text (tab indentation, exponent floats) in existing JSON configurations, configuration names with an upper-case suffix (Lint.JSON, lint.YML) handed over with --config.",
          "Trusted: yaml.safe_load / json.loads as independent parsers; Python literal syntax as the documented int/float conversion; validated keys as in src/config.py.",
          "DESIGN.md section 4 C20"),
 
